@@ -154,20 +154,35 @@ Theorem havl_insert_refines : forall s pt x xv,
 Proof. exact havl_insert_ok. Qed.
 Print Assumptions havl_insert_refines.
 
-(* FULL STATEMENT (not proved): for every history ops of insert / find / remove,
-     exists s pt, hrun havl_step havl_init ops = Some (s, snd (run avl_step Leaf ops)) /\
-                  heap_rep s pt /\ erase pt = fst (run avl_step Leaf ops).
-   PROVED: the same for histories without removals (below), and for removals the
-   two theorems that follow.  MISSING: that the key/value swap loop of
-   muggle_avl_tree_remove ("move data into leaf", which writes no pointer) picks
-   the data the functional model's [rem] picks; the model driver cross-checks
-   the heap program against the functional model on every short generated case. *)
-Theorem havl_refines_map_partial : forall ops s pt,
-  heap_rep s pt -> avl_inv (erase pt) -> Forall no_rem ops ->
+(* Every history of insert / find / remove, run by the pointer programs from the
+   empty tree: never stuck, answers exactly like the functional model (hence,
+   by avl_refines_map, like the reference map), and the heap afterwards
+   represents the functional model's tree — with consistent parent links
+   (havl_parent_links_consistent) and the AVL invariant (avl_inv_history). *)
+Theorem havl_refines_map : forall ops,
+  exists s pt, hrun havl_step havl_init ops = Some (s, snd (run avl_step Leaf ops)) /\
+    heap_rep s pt /\ erase pt = fst (run avl_step Leaf ops).
+Proof. exact havl_refines. Qed.
+Print Assumptions havl_refines_map.
+
+(* the same from any represented AVL tree *)
+Theorem havl_refines_map_from : forall ops s pt,
+  heap_rep s pt -> avl_inv (erase pt) ->
   exists s' pt', hrun havl_step s ops = Some (s', snd (run avl_step (erase pt) ops)) /\
     heap_rep s' pt' /\ erase pt' = fst (run avl_step (erase pt) ops).
-Proof. exact havl_history_partial. Qed.
-Print Assumptions havl_refines_map_partial.
+Proof. exact havl_history. Qed.
+Print Assumptions havl_refines_map_from.
+
+(* muggle_avl_tree_remove of an arbitrary node n (found below the search path
+   ctx): the data-swap loop down to a leaf (predecessor first, else successor),
+   the unlinking and the retracing together produce the functional model's tree. *)
+Theorem havl_remove_refines : forall s ctx n l x v b r,
+  let N := PNode n l x v b r in
+  heap_rep s (plug ctx N) -> bal (erase (plug ctx N)) -> path_for x ctx ->
+  exists s' pt', havl_remove s n = Some s' /\ heap_rep s' pt' /\
+    erase pt' = fst (fst (rem (ByKey x) (erase (plug ctx N)))).
+Proof. exact havl_remove_ok. Qed.
+Print Assumptions havl_remove_refines.
 
 (* the retracing loop of muggle_avl_tree_remove (balance updates, rotations that
    continue upward while the depth decreases, navigation through the parent
